@@ -5,10 +5,10 @@
  "enforce": ["clearbit"],
  "replace": [],
  "annotate": ["events/events_network.c"],
- "defines": ["VERIF_HALLOC", "NET_FIXCAP", "NS_Q=2", "NF_Q=2", "NF_A=2"],
+ "defines": ["VERIF_HALLOC", "NET_FIXCAP"],
  "allow_undefined": ["libcperciva_warn", "libcperciva_warnx"],
  "models": ["models/ev_poll.c", "models/ev_atexit.c", "models/ev_selectstats.c"],
- "timeout": 120,
+ "timeout": 300,
  "assumptions": ["object-size parameters: <= NS_Q descriptors in S, <= NF_Q initialised / NF_A allocated pollfd entries (for-all invariants expanded over these constants)",
                  "meta-level induction over histories (L-ind)"]
 }
@@ -28,12 +28,14 @@ h_clearbit(void)
 	IN(short, bit);
 
 	NET_MK_STATE();
+	EV_SPEC_BEGIN
 	/* INV_net everywhere except at the descriptor whose slot was just emptied (clearbit's own precondition) */
 	__CPROVER_assume(pollpos < nfds && (bit == POLLIN || bit == POLLOUT));
 	__CPROVER_assume(NET_ALL_F && NET_INV_G && NET_ALL_S_BUT((size_t)fds[pollpos].fd));
 	__CPROVER_assume((fds[pollpos].events & bit) != 0);
 	__CPROVER_assume(bit == POLLIN ? (NS_R(fds[pollpos].fd).reader == NULL && NET_S_WR(fds[pollpos].fd)) :
 	    (NS_R(fds[pollpos].fd).writer == NULL && NET_S_RD(fds[pollpos].fd)));
+	EV_SPEC_END
 	size_t nfds0 = nfds;
 	short ev0 = fds[pollpos].events;
 
